@@ -47,6 +47,9 @@ def describe(v) -> str | None:
 		return 'dict<' + join([describe(k) for k in v]) + ', ' + join([describe(x) for x in v.values()]) + '>'
 	if isinstance(v, type) or callable(v):
 		return None
+	gname = type(v).__name__
+	if gname[:1] == 'G' and gname[1:].isdigit() and hasattr(v, f'g{gname[1:]}0'):
+		return f'{gname}<{describe(getattr(v, "g" + gname[1:] + "0")) or "*"}>'  # generic user class: the type argument is the type of its T-typed field
 	if type(v).__module__ == '__vf_main__' or hasattr(type(v), '__vf_fields__') or type(v).__name__.startswith('C'):
 		return type(v).__name__ if not type(v).__module__.startswith(('builtins', 'collections')) else None
 	return None
@@ -102,12 +105,14 @@ BASES: dict[str, str] = {}   # class -> base class of the program under judgemen
 def unify(static: str, runtime: str) -> bool:
 	if runtime == '*' or static == runtime:
 		return True
+	if static.startswith('T_G') and static[3:].isdigit():
+		return True  # inside the generic class body the static type is the type variable itself
 	base = BASES.get(runtime)
 	while base:  # an instance of a subclass seen through a name declared with the base class (e.g. `self` in an inherited method)
 		if base == static:
 			return True
 		base = BASES.get(base)
-	if '|' in runtime:
+	if '|' in runtime and 'T_G' not in static:
 		return False
 	hs, is_ = split(static)
 	hr, ir = split(runtime)
